@@ -402,6 +402,26 @@ def main():
         one_main()
     elif cmd == "shrink":
         shrink_main()
+    elif cmd == "dev":
+        # dev <prop> <group-name> <i0> [n] : run seeds in-process, print verdicts (debugging aid)
+        import props
+        bootstrap()
+        prop, gname, i0 = sys.argv[2], sys.argv[3], int(sys.argv[4])
+        n = int(sys.argv[5]) if len(sys.argv) > 5 else 1
+        g = next(x for x in props.PROPS[prop]["groups"] if x["name"] == gname)
+        t0 = time.time()
+        cnt = collections.Counter()
+        for i in range(i0, i0 + n):
+            res = run_seed(prop, g, i, int(os.environ.get("VERIF_SEED", "0")), want_log=(n == 1))
+            cnt[res["end"]] += 1
+            if n == 1:
+                for l in (res.get("log") or [])[-int(os.environ.get("TAIL", "60")):]:
+                    print(l[:220])
+                res.pop("log", None); res.pop("trace", None)
+                print(json.dumps(res, indent=1, default=repr)[:6000])
+            elif res["viol"]:
+                print(i, res["end"], [(v["prop"], v["cls"], v["detail"][:200]) for v in res["viol"]])
+        print(dict(cnt), f"{n/(time.time()-t0):.1f} runs/s")
     elif cmd == "check":
         import argparse
         ap = argparse.ArgumentParser()
